@@ -140,7 +140,7 @@ class scratch_dir:
         return False
 
 
-def run_flow(cfg, parallel_mode=None, root_dir=None):
+def run_flow(cfg, parallel_mode=None, root_dir=None, n_settings=1):
     """execute_simulation_test_settings on a fresh test setting; results + the setting."""
     from quara.simulation.standard_qtomography_simulation_flow import execute_simulation_test_settings
 
@@ -155,6 +155,8 @@ def run_flow(cfg, parallel_mode=None, root_dir=None):
         if os.environ.get("VERIF_REPS", "1") == "0":
             h = 0
         settings = [ts] if h <= 1 else ((ts,) if h == 2 else iter([ts]))
+        if n_settings > 1:  # the same test setting listed n times: n numbered result directories
+            settings = [ts] * n_settings
         return execute_simulation_test_settings(
             settings, d, pdf_mode="none", exec_sim_check=exec_check_of(cfg), parallel_mode=parallel_mode
         )
